@@ -104,6 +104,17 @@ func findRecoverFrame(info *types.Info, f *fn) *recoverFrame {
 				inner = ifs.Body.List
 			}
 		}
+		// or `if cfg.Debug.PassThroughPanics { return }` in front of the recover test
+		if len(inner) == 2 {
+			if ifs, ok := inner[0].(*ast.IfStmt); ok && ifs.Init == nil && ifs.Else == nil && mentionsName(ifs.Cond, "PassThroughPanics") && len(ifs.Body.List) == 1 {
+				if ret, isRet := ifs.Body.List[0].(*ast.ReturnStmt); isRet && len(ret.Results) == 0 {
+					if u, isNot := stripParens(ifs.Cond).(*ast.UnaryExpr); !isNot || u.Op != token.NOT {
+						fr.guardedBy = "PassThroughPanics"
+						inner = inner[1:]
+					}
+				}
+			}
+		}
 		if len(inner) != 1 {
 			fr.problem = "deferred closure has an unexpected shape"
 			return fr
@@ -138,34 +149,59 @@ func findRecoverFrame(info *types.Info, f *fn) *recoverFrame {
 			fr.problem = "the function has no named error result the recovered value could be stored in"
 			return fr
 		}
-		assigns := func(stmts []ast.Stmt) bool {
+		// assigns: every path through the statements stores into the error result
+		var assigns func(stmts []ast.Stmt) bool
+		assigns = func(stmts []ast.Stmt) bool {
 			for _, s := range stmts {
-				if a, ok := s.(*ast.AssignStmt); ok {
-					for _, l := range a.Lhs {
+				switch x := s.(type) {
+				case *ast.AssignStmt:
+					for _, l := range x.Lhs {
 						if isErrTarget(l) {
 							return true
 						}
+					}
+				case *ast.BlockStmt:
+					if assigns(x.List) {
+						return true
+					}
+				case *ast.IfStmt:
+					if x.Else != nil && assigns(x.Body.List) {
+						switch e := x.Else.(type) {
+						case *ast.BlockStmt:
+							if assigns(e.List) {
+								return true
+							}
+						case *ast.IfStmt:
+							if assigns([]ast.Stmt{e}) {
+								return true
+							}
+						}
+					}
+				case *ast.TypeSwitchStmt, *ast.SwitchStmt:
+					var body *ast.BlockStmt
+					if ts, ok := x.(*ast.TypeSwitchStmt); ok {
+						body = ts.Body
+					} else {
+						body = x.(*ast.SwitchStmt).Body
+					}
+					all, hasDefault := true, false
+					for _, c := range body.List {
+						cc := c.(*ast.CaseClause)
+						if cc.List == nil {
+							hasDefault = true
+						}
+						if !assigns(cc.Body) {
+							all = false
+						}
+					}
+					if all && hasDefault {
+						return true
 					}
 				}
 			}
 			return false
 		}
 		fr.assignsErr = assigns(ifs.Body.List)
-		if !fr.assignsErr && len(ifs.Body.List) == 1 {
-			if ts, ok := ifs.Body.List[0].(*ast.TypeSwitchStmt); ok {
-				all, hasDefault := true, false
-				for _, c := range ts.Body.List {
-					cc := c.(*ast.CaseClause)
-					if cc.List == nil {
-						hasDefault = true
-					}
-					if !assigns(cc.Body) {
-						all = false
-					}
-				}
-				fr.assignsErr = all && hasDefault
-			}
-		}
 		if !fr.assignsErr {
 			fr.problem = "not every non-nil recovered value is stored in the named error result (a panic would be swallowed and success reported)"
 		}
